@@ -560,6 +560,27 @@ impl DirTourist {
 			return Visit::Skip;
 		}
 
+		// VCS metadata directories are never entered, at any depth and whatever the ignore files
+		// say (the globs added in new() only cover those directly under the base)
+		if path != self.base
+			&& path.file_name().map_or(false, |name| {
+				[
+					".git",
+					".hg",
+					".bzr",
+					"_darcs",
+					".fossil-settings",
+					".svn",
+					".pijul",
+				]
+				.iter()
+				.any(|vcs| name == *vcs)
+			}) {
+			trace!(?path, "path is a VCS metadata directory, adding to skip list");
+			self.skip(path);
+			return Visit::Skip;
+		}
+
 		// If explicitly watched paths were not specified, we can include any path
 		//
 		// If explicitly watched paths *were* specified, then to include the path, either:
